@@ -35,6 +35,13 @@ def funcs(maxlen):
     inout = [(t, ln) for t in texts for ln in range(max(1, len(t)), max(1, len(t)) + 4) if ln >= len(t)]
     fs.append(A.Func("s_str_inout", A.VoidRes(), [(Over(A.StrOut("inout"), inout), "s")]))
     fs.append(A.Func("s_str_inout_p", A.VoidRes(), [(Over(A.StrOut("inout", ptr=True), inout), "s")]))
+    # ORDER: an argument that needs the buffer treatment followed by one that does not (and the reverse)
+    short = [t for t in texts if len(t) <= 2]
+    fs.append(A.Func("s_out_then_in", A.VoidRes(), [(Over(A.CStrOut(), [5, 6, 9]), "d"), (Over(A.CStrIn(), short), "s")]))
+    fs.append(A.Func("s_in_then_out", A.VoidRes(), [(Over(A.CStrIn(), short), "s"), (Over(A.CStrOut(), [5, 6, 9]), "d")]))
+    fs.append(A.Func("s_out_then_char", A.VoidRes(), [(Over(A.CStrOut(), [5, 6, 9]), "d"), (A.CharVal(), "c")]))
+    fs.append(A.Func("s_strout_then_in", A.VoidRes(), [(Over(A.StrOut("out"), [0, 4, 5, 6]), "d"), (Over(A.CStrIn(), short), "s")]))
+    fs.append(A.Func("s_inout_then_in", A.VoidRes(), [(Over(A.CStrInout(), [t for t in nonempty if len(t) <= 2]), "d"), (Over(A.CStrIn(), short), "s")]))
     for i, text in enumerate(["", "x", "hey you", "trail  "]):
         fs.append(A.Func("s_res_cstr%d" % i, A.CStrRes(text), []))
         fs.append(A.Func("s_res_str%d" % i, A.StrRes("val", text), []))
